@@ -188,10 +188,11 @@ def run_job(job, scratch, tables, timeout_s):
     return dict(job=job, rc=rc, log=log[-4000:], res=res, wall=time.time() - t0)
 
 
-def native_replay(job, cex_path, scratch):
+def native_replay(job, cex_path, scratch, extra_env=None):
     pkg = job["pkg"]
     ov = overlay_map(scratch, [pkg])
     env = dict(GOENV, VERIF_REPLAY=cex_path, VERIF_HARNESS=job["harness"])
+    env.update(extra_env or {})
     try:
         r = sh(["go", "test", "-vet=off", "-count=1", "-overlay", ov, "-run", "TestVerifReplay", "-v", "./" + pkg],
                cwd=REPO, env=env, timeout=900)
